@@ -4,7 +4,7 @@ Development tool: records which checks report which known-bad change (and that '
 import sys, os, json, subprocess, tempfile, shutil
 from concurrent.futures import ThreadPoolExecutor
 VERIF = os.path.dirname(os.path.dirname(os.path.abspath(__file__)))
-PROPS = ['C%02d' % i for i in range(1, 21)]
+PROPS = os.environ.get('VERIF_MATRIX_PROPS', '').split() or ['C%02d' % i for i in range(1, 21)]
 
 def one(patch):
     tmp = tempfile.mkdtemp(prefix='matrix-')
@@ -35,7 +35,7 @@ if __name__ == '__main__':
     outp = sys.argv[1]
     patches = sys.argv[2:]
     res = {}
-    with ThreadPoolExecutor(max_workers=6) as ex:
+    with ThreadPoolExecutor(max_workers=int(os.environ.get('VERIF_MATRIX_JOBS', '6'))) as ex:
         for patch, out in ex.map(one, patches):
             res[patch] = out
             print(patch, {k: v['exit'] for k, v in out.items() if isinstance(v, dict) and v.get('exit')} if 'error' not in out else out, flush=True)
